@@ -19,13 +19,13 @@ def fxControlFileClose : List String :=
   ["if{", "if{", "close(m.fp)", "if{", "return", "}", "}", "exists(m.path)", "if[Exists(m.path)]{", "remove(m.path)", "if{", "return", "}", "}", "}"]
 
 def fxNewHandlerForRead : List String :=
-  ["exists(h.path)", "if[!Exists(h.path)]{", "return", "}", "control_file(RLock)", "if{", "return", "}", "open_shared(h.path)", "if{", "return", "}"]
+  ["exists(h.path)", "if[!Exists(h.path)]{", "return", "}", "control_file(RLock)", "if{", "release_isolated", "return", "}", "open_shared(h.path)", "if{", "release_isolated", "return", "}"]
 
 def fxNewHandlerForUpdate : List String :=
-  ["exists(h.path)", "if[!Exists(h.path)]{", "return", "}", "control_file(Lock)", "if{", "return", "}", "open_exclusive(path)", "if{", "return", "}", "control_file(Temporary)", "if{", "return", "}"]
+  ["exists(h.path)", "if[!Exists(h.path)]{", "return", "}", "control_file(Lock)", "if{", "release_isolated", "return", "}", "open_exclusive(path)", "if{", "release_isolated", "return", "}", "control_file(Temporary)", "if{", "release_isolated", "return", "}"]
 
 def fxNewHandlerForCreate : List String :=
-  ["exists(h.path)", "if[Exists(h.path)]{", "return", "}", "if{", "return", "}", "control_file(Lock)", "if{", "return", "}", "create_excl(h.path)", "if{", "return", "}"]
+  ["exists(h.path)", "if[Exists(h.path)]{", "return", "}", "if{", "return", "}", "control_file(Lock)", "if{", "release_isolated", "return", "}", "create_excl(h.path)", "if{", "release_isolated", "return", "}"]
 
 /-- reviewed 2026-09-25 after fix 1713f77: only a handler that created the file itself removes it -/
 def fxHandlerClose : List String :=
@@ -38,5 +38,47 @@ def fxHandlerCloseWithErrors : List String :=
     context; nothing is written before it -/
 def fxTransactionCommit : List String :=
   ["if{", "return", "}", "if{", "loop{", "truncate", "if{", "return", "}", "seek", "if{", "return", "}", "encode", "if{", "return", "}", "if{", "if{", "return", "}", "write", "if{", "return", "}", "}", "}", "}", "if{", "loop{", "truncate", "if{", "return", "}", "seek", "if{", "return", "}", "encode", "if{", "return", "}", "if{", "if{", "return", "}", "write", "if{", "return", "}", "}", "}", "}", "loop{", "handler_commit", "if{", "return", "}", "}", "loop{", "handler_commit", "if{", "return", "}", "}", "if{", "return", "}"]
+
+
+/-! lib/file/container.go (reviewed 2026-09-25 on b50ddd1): a handler is taken out of the container only AFTER its close /
+    commit succeeded (a failing close leaves it registered, so the final CloseAllWithErrors still reaches it);
+    closeWithErrors always unregisters; a handler that cannot be registered is released on the spot; every
+    NewHandlerFor… releases what it had acquired (`release_isolated`) on each of its error returns -/
+
+def fxContainerCreateHandler : List String :=
+  ["new_handler", "if{", "return", "}", "container_add", "if{", "release_isolated", "return", "}"]
+
+def fxContainerClose : List String :=
+  ["if{", "return", "}", "if{", "h.close", "if{", "return", "}", "container_remove", "}"]
+
+def fxContainerCommit : List String :=
+  ["if{", "return", "}", "if{", "h.commit", "if{", "return", "}", "container_remove", "}"]
+
+def fxContainerCloseWithErrors : List String :=
+  ["if{", "return", "}", "if{", "h.closeWithErrors", "container_remove", "}"]
+
+def fxContainerCloseAll : List String :=
+  ["loop{", "container_close(c.m[k])", "if{", "return", "}", "}"]
+
+def fxContainerCloseAllWithErrors : List String :=
+  ["loop{", "container_close_we(c.m[k])", "}"]
+
+def fxContainerCreateHandlerForRead : List String :=
+  ["create_handler(NewHandlerForRead)"]
+
+def fxContainerCreateHandlerForUpdate : List String :=
+  ["create_handler(NewHandlerForUpdate)"]
+
+def fxContainerCreateHandlerForCreate : List String :=
+  ["create_handler(newHandlerForCreate)"]
+
+def fxContainerCreateHandlerWithoutLock : List String :=
+  ["create_handler(NewHandlerWithoutLock)"]
+
+def fxContainerAdd : List String :=
+  ["if{", "return", "}", "container_store"]
+
+def fxContainerRemove : List String :=
+  ["if{", "container_delete", "}"]
 
 end Csvq.Ref
